@@ -209,6 +209,9 @@ def auto_version(cfg, tokens):
     return v
 
 
+_HID = {}
+
+
 def build(cfg, history):
     """history: list of tokens ('/' separates sequences).
     Returns (bytes, per-unit model fields incl. true lengths and declared offsets (None = sequence
@@ -239,6 +242,8 @@ def build(cfg, history):
             meta["mods"] = mods
             meta["pcm"] = cfg.pcm
             meta["len"] = len(b)
+            if meta["kind"] == "H":  # identity of the sequence header's payload bytes (what the validator compares)
+                meta["hid"] = _HID.setdefault(bytes(b[13:]), len(_HID))
             metas.append(meta)
             chunks.append(bytearray(b))
         for ui, (meta, b) in enumerate(zip(metas, chunks)):
@@ -317,7 +322,7 @@ def model_line(cfg, flat, level_pattern_tokens):
             parts.append("/")
             continue
         if m["kind"] == "H":
-            parts.append("H %d %d %d %d %d %d %d %d" % (m["code"], m["len"], m["next"], m["prev"], m["a"], m["major_version"], m["profile"], m["pcm"]))
+            parts.append("H %d %d %d %d %d %d %d %d" % (m["code"], m["len"], m["next"], m["prev"], m["hid"], m["major_version"], m["profile"], m["pcm"]))
         else:
             parts.append("%s %d %d %d %d %d %d %d %d" % (m["kind"], m["code"], m["len"], m["next"], m["prev"],
                                                        m.get("a", 0), m.get("b", 0), m.get("c", 0), m.get("d", 0)))
@@ -371,7 +376,7 @@ def reference_accepts(flat, slices, level_pattern=None):
             elif m["next"] != m["len"] and not (m["next"] == 0 and m["kind"] in "PFD"):
                 return False, "next parse offset"
             # sequence headers byte-identical
-            if m["kind"] == "H" and m["a"] != hdr["a"]:
+            if m["kind"] == "H" and m["hid"] != hdr["hid"]:
                 return False, "sequence header changed"
             # profile / version permitted parse codes
             if m["code"] not in PROFILE_CODES[prof]:
